@@ -58,10 +58,14 @@ static inline _Bool spec_sha512_is_compress(const unsigned long long *out, uint6
 #define V_ASSIGNS_TB1(...) V_ASSIGNS(__VA_ARGS__)
 #endif
 #define V_SHA1_TRANSFORM_FRAME() V_REQUIRES(__CPROVER_rw_ok(state, 5 * sizeof(sha1_quadbyte))) V_REQUIRES(__CPROVER_r_ok(buffer, 64)) V_ASSIGNS_TB1(__CPROVER_object_upto(state, 5 * sizeof(sha1_quadbyte)))
+#define V_SHA256_TRANSF_FRAME_REQ() V_REQUIRES(__CPROVER_rw_ok(ctx, sizeof(*ctx))) V_REQUIRES(block_nb == 0 || __CPROVER_r_ok(message, (size_t)block_nb * SHA256_BLOCK_SIZE))
+#define V_SHA512_TRANSF_FRAME_REQ() V_REQUIRES(__CPROVER_rw_ok(ctx, sizeof(*ctx))) V_REQUIRES(block_nb == 0 || __CPROVER_r_ok(message, (size_t)block_nb * SHA512_BLOCK_SIZE))
 #define V_SHA256_TRANSF_FRAME() V_REQUIRES(__CPROVER_rw_ok(ctx, sizeof(*ctx))) V_REQUIRES(block_nb == 0 || __CPROVER_r_ok(message, (size_t)block_nb * SHA256_BLOCK_SIZE)) V_ASSIGNS_TB(__CPROVER_object_upto(ctx->h, sizeof(ctx->h)))
 #define V_SHA512_TRANSF_FRAME() V_REQUIRES(__CPROVER_rw_ok(ctx, sizeof(*ctx))) V_REQUIRES(block_nb == 0 || __CPROVER_r_ok(message, (size_t)block_nb * SHA512_BLOCK_SIZE)) V_ASSIGNS_TB(__CPROVER_object_upto(ctx->h, sizeof(ctx->h)))
 
-#ifdef VERIF_SHA_CALLER_VIEW
+#if defined(VERIF_SHA_LOG_VIEW)
+#include "contracts/sha_block_log.h"
+#elif defined(VERIF_SHA_CALLER_VIEW)
 #include "contracts/sha_block_cv.h"
 #else
 void SHA1_Transform(sha1_quadbyte state[5], const sha1_byte buffer[64])
